@@ -214,6 +214,8 @@ def frame_scenario(seed, sweep=False):
             cid, d = (6 << 26) | (0xEA << 16) | (dest << 8) | sa, [p & 255, (p >> 8) & 255, p >> 16]
         else:
             cid, d = (6 << 26) | (0xEE << 16) | (0xFF << 8) | rng.choice(helds + prefs + [0x77]), le8(rng.getrandbits(63) | (1 << 20))
+        if rng.random() < 0.3 and (cid >> 16) & 0xFF not in (0xEA, 0xEE):
+            cid |= 1 << 24                     # data page 1: PDU1 / PDU2 is decided by the PF byte alone
         o = {"t": t + 2000 * i, "node": "R", "op": "inject", "id": cid, "data": d}
         fl = rng.random()
         if fl < 0.5:
